@@ -412,7 +412,10 @@ class SharesManager(BaseManager):
             parent.items -= children
 
         self._shared_directories.append(directory_object)
-        self._build_term_map(directory_object)
+        # The items that were moved are new objects and the old ones can still
+        # be referenced elsewhere, rebuild the term map so only the new ones are
+        # found
+        self.rebuild_term_map()
 
         self._event_bus.emit_sync(SharedDirectoryChangeEvent(directory_object))
 
